@@ -151,6 +151,7 @@ func (s *segmentMetadata) getIndex(vecIdx VectorIndex, txtIdx TextIndex, metaIdx
 	combinedReader := io.MultiReader(readers...)
 
 	// Deserialize the index
+	verifPoint("getIndex:before-ReadFrom")
 	if readerFrom, ok := idx.(io.ReaderFrom); ok {
 		if _, err := readerFrom.ReadFrom(combinedReader); err != nil {
 			return nil, fmt.Errorf("failed to deserialize segment: %w", err)
@@ -159,6 +160,7 @@ func (s *segmentMetadata) getIndex(vecIdx VectorIndex, txtIdx TextIndex, metaIdx
 		return nil, fmt.Errorf("index does not implement io.ReaderFrom")
 	}
 
+	verifPoint("getIndex:after-ReadFrom")
 	// Cache the loaded index
 	s.cachedIndex = idx
 
